@@ -298,7 +298,7 @@ def check(prog, rep):
         for c in calls(fi.node):
             if dotted(c.func) in (fi.name, "gradient", "_gradient_cached") and len(c.args) == 2:
                 ok = src(c.args[1]) == fi.node.args.args[1].arg
-                rep.ob("R02.1", fi.name, ok, "recursive calls differentiate w.r.t. the unchanged variable" if ok else f"recursive call {src(c)[:50]} differentiates with respect to a different variable", loc=f"{fi.module.rel}:{c.lineno}", detail=f"same-wrt:{src(c.args[0])}")
+                rep.ob("R02.1", fi.name, ok, "recursive calls differentiate w.r.t. the unchanged variable" if ok else f"recursive call {src(c)[:50]} differentiates with respect to a different variable", loc=f"{fi.module.rel}:{c.lineno}", detail=f"same-wrt:{src(c.args[0])}", robust=True)
         # R02.3 leaves (by value: what the arm stores / returns, shared locals such as `zero = Constant(0.0)` resolved)
         d = dispatcher(prog, fi)
         fasg = local_assignments(fi.node)
@@ -456,7 +456,7 @@ def _simplifiers(prog, rep):
                 # default return: must be the plain operation
                 tr = Tr({a: x, b: y})
                 ok = tr.t(res).eq(f(x, y))
-                rep.ob("R02.2", name, ok, f"default: {src(res)}" if ok else f"default return {src(res)} is not the plain operation", loc=f"{fi.module.rel}:{node.lineno}", detail="default")
+                rep.ob("R02.2", name, ok, f"default: {src(res)}" if ok else f"default return {src(res)} is not the plain operation", loc=f"{fi.module.rel}:{node.lineno}", detail="default", robust=True)
                 continue
             # the positive condition of this early return
             pos = [t for t, pol in conds if pol][-1]
@@ -471,7 +471,7 @@ def _simplifiers(prog, rep):
                     ok = got.eq(want)
                 except ZeroDivisionError:
                     ok = False
-                rep.ob("R02.2", name, ok, f"`{label}` => {src(res)} is an identity" if ok else f"early return `{src(res)}` under `{label}` is not equal to the plain operation: the simplifier changes the value of the derivative", loc=f"{fi.module.rel}:{node.lineno}", detail=f"law:{label}")
+                rep.ob("R02.2", name, ok, f"`{label}` => {src(res)} is an identity" if ok else f"early return `{src(res)}` under `{label}` is not equal to the plain operation: the simplifier changes the value of the derivative", loc=f"{fi.module.rel}:{node.lineno}", detail=f"law:{label}", robust=True)
     # neg
     fi = prog.func(f"{mod}:_simplify_neg")
     a = fi.node.args.args[0].arg
@@ -512,6 +512,22 @@ def _simplifiers(prog, rep):
         rets = [n.value for n in walk_local(fi.node) if isinstance(n, ast.Return)]
         p = fi.node.args.args[0].arg
         ok = len(rets) == 1 and isinstance(rets[0], ast.BoolOp) and isinstance(rets[0].op, ast.And) and src(rets[0].values[0]) == f"isinstance({p}, Constant)" and src(rets[0].values[1]) in (f"{p}.value == {val}", f"{p}.value == {val[0]}")
+        if not ok:
+            # positively wrong: the kind test admits something besides Constant, or the value is read with no kind test
+            kinds_ = None
+            for c_ in [c_ for r_ in rets if r_ is not None for c_ in ast.walk(r_)] + [c_ for c_ in ast.walk(fi.node) if isinstance(c_, ast.If) for c_ in ast.walk(c_.test)]:
+                if isinstance(c_, ast.Call) and dotted(c_.func) == "isinstance" and len(c_.args) == 2 and src(c_.args[0]) == p:
+                    ks_ = c_.args[1].elts if isinstance(c_.args[1], ast.Tuple) else [c_.args[1]]
+                    kinds_ = [src(k_) for k_ in ks_]
+            reads_value = any(isinstance(x_, ast.Attribute) and x_.attr in ("value", "_value") and src(x_.value) == p for x_ in ast.walk(fi.node))
+            if kinds_ is not None and set(kinds_) - {"Constant"}:
+                rep.ob("R02.2", nm, False, f"{nm} accepts {kinds_}: a {sorted(set(kinds_) - {'Constant'})[0]} whose value happens to be {val} is folded away as if it were the constant (a Parameter can change later)", loc=fi.loc, detail="constant-only", robust=True)
+                continue
+            if kinds_ is None and reads_value:
+                rep.ob("R02.2", nm, False, f"{nm} reads {p}.value without testing that {p} is a Constant: a Parameter has a .value too and would be folded at differentiation time", loc=fi.loc, detail="constant-only", robust=True)
+                continue
+            rep.undecided(f"{nm}: not in the form `isinstance({p}, Constant) and {p}.value == {val}`; whether it can fire on non-constants is not decided")
+            continue
         rep.ob("R02.2", nm, ok, f"fires only on Constant nodes whose value is {val}" if ok else f"{nm} is not `isinstance(expr, Constant) and expr.value == {val}`: it could fold a Parameter or a non-constant node", loc=fi.loc, detail="constant-only")
 
 
